@@ -132,8 +132,15 @@ fn sizes_within_caps(sn: &Snap, caps: &[usize; 4]) -> bool {
     sn.exec_len <= caps[0] && sn.int.len() <= caps[1] && sn.float.len() <= caps[2] && sn.bool.len() <= caps[3]
 }
 
+/// Does the error value look like "a stack would overflow"? Only used as a secondary signal: WHERE a fatal error is
+/// allowed is decided by the model ("a stack would overflow at exactly this step"), not by the error's variant — a
+/// maintainer may report overflow through another variant (e.g. a `CapacityExceeded` with counts).
 fn is_overflow_err(e: &PushInstructionError) -> bool {
-    matches!(e, PushInstructionError::StackError(StackError::Overflow { .. }))
+    if matches!(e, PushInstructionError::StackError(StackError::Overflow { .. })) {
+        return true;
+    }
+    // any other stack error that is not the (structurally known) underflow
+    matches!(e, PushInstructionError::StackError(se) if !matches!(se, StackError::Underflow { .. }))
 }
 
 pub struct Stepped {
